@@ -327,7 +327,7 @@ package core
 //@ func ExtractProviderMetrics
 //@   property C20
 //@   safety
-//@   requires stats != nil
+//@   requires stats != nil && ctx != nil && rlog != nil
 //@   modifies ports.RequestStats.ProviderMetrics
 //@   ensures stats.ProviderMetrics == nil || stats.ProviderMetrics == old(stats.ProviderMetrics) || finiteMetrics(stats.ProviderMetrics)
 
@@ -380,7 +380,7 @@ package core
 //@ func AutoDetectStreamingMode
 //@   property C18
 //@   safety
-//@   requires resp != nil
+//@   requires resp != nil && ctx != nil
 //@   modifies gvar streamMode
 //@   records streamMode = res
 //@   ensures profile == "standard" ==> !res
